@@ -70,7 +70,11 @@ def spec (_ : Unit) (op : String) (obs : String) : String :=
         "specfail C08/extension-not-a-2d-code the first quadrant is not the original square or some row/column is not a codeword of the reference codec"
       else if !Lumina.Spec.C08.specRejects (Lumina.Spec.C08.malformedOds ver ods) accepted then
         "specfail C08/malformed-ods-accepted"
-      else if natArg? ws "valid" == some 1 && !accepted then "specfail C08/valid-ods-rejected"
+      else if natArg? ws "valid" == some 1 && !accepted then
+        -- known limitation (open finding): the GF(2^8) codec cannot extend squares wider than 128 although app versions
+        -- from 6 on allow up to 512
+        (if isqrt ods.length > 128 then "specfail C08/valid-ods-wider-than-codec-rejected a valid original square wider than 128 cannot be extended"
+         else "specfail C08/valid-ods-rejected")
       else "specok"
     | _, _, _ => if os.head? == some "panic" then "specfail C08/extend-panic" else "specfail C08/unparsed"
   | "new" :: _ =>
@@ -80,6 +84,8 @@ def spec (_ : Unit) (op : String) (obs : String) : String :=
       if os.head? == some "panic" then "specfail C08/new-panic"
       else if !Lumina.Spec.C08.specRejects (Lumina.Spec.C08.malformedEds ver data) accepted then
         "specfail C08/malformed-eds-accepted"
+      -- validity is DECIDED here from the shares (not taken from the generator): every valid square must be accepted
+      else if !Lumina.Spec.C08.specAccepts (Lumina.Spec.C08.validEds ver data) accepted then "specfail C08/valid-eds-rejected"
       else if natArg? ws "valid" == some 1 && !accepted then "specfail C08/valid-eds-rejected"
       else "specok"
     | _, _ => "specfail C08/unparsed"
